@@ -1,0 +1,47 @@
+//go:build verif
+
+// Status report contracts (C15) for the govc verifier (see /verif/DESIGN.md). Comment-only.
+
+package bpv7
+
+// A status report names the subject's exact bundle id, carries the reason, asserts exactly the reported status
+// (positions: 0 received, 1 forwarded, 2 delivered, 3 deleted) and a time only if the subject requested one (flag 0x40).
+// govc:func NewStatusReport property C15
+//@ requires 0 <= statusItem && statusItem < 4
+//@ assigns nothing
+//@ ensures report != nil && len(report.StatusInformation) == 4 && report.ReportReason == reason
+//@ ensures report.RefBundle.SourceNode == bndl.PrimaryBlock.SourceNode && report.RefBundle.Timestamp == bndl.PrimaryBlock.CreationTimestamp
+//@ ensures report.RefBundle.IsFragment == ((uint64(bndl.PrimaryBlock.BundleControlFlags) & 0x01) != 0) && report.RefBundle.FragmentOffset == bndl.PrimaryBlock.FragmentOffset && report.RefBundle.TotalDataLength == bndl.PrimaryBlock.TotalDataLength
+//@ ensures forall i int :: 0 <= i && i < 4 ==> report.StatusInformation[i].Asserted == (i == int(statusItem))
+//@ ensures forall i int :: 0 <= i && i < 4 ==> (report.StatusInformation[i].StatusRequested ==> i == int(statusItem) && (uint64(bndl.PrimaryBlock.BundleControlFlags) & 0x40) != 0)
+//@ ensures (uint64(bndl.PrimaryBlock.BundleControlFlags) & 0x40) != 0 ==> report.StatusInformation[int(statusItem)].StatusRequested && report.StatusInformation[int(statusItem)].Time == time
+
+// govc:func (Bundle).ID property C15 C14
+//@ assigns nothing
+//@ ensures result.SourceNode == b.PrimaryBlock.SourceNode && result.Timestamp == b.PrimaryBlock.CreationTimestamp
+//@ ensures result.IsFragment == ((uint64(b.PrimaryBlock.BundleControlFlags) & 0x01) != 0) && result.FragmentOffset == b.PrimaryBlock.FragmentOffset && result.TotalDataLength == b.PrimaryBlock.TotalDataLength
+
+// ---- assumed helpers used by the node when it emits an administrative record ----
+
+// govc:trusted AdministrativeRecordToCbor
+//@ assigns nothing
+
+// sort.Sort over the block slice (outside reach): permutes the blocks in place
+// govc:trusted (*Bundle).sortBlocks
+//@ assigns elems(b.CanonicalBlocks)
+
+// govc:trusted (*Bundle).SetCRCType
+//@ assigns b.PrimaryBlock.CRCType, b.PrimaryBlock.CRC, elems(b.CanonicalBlocks)
+
+// builder steps that parse their argument (durations, block arguments, the clock): only their frame is assumed
+// govc:trusted (*BundleBuilder).Lifetime
+//@ assigns bldr.err, bldr.primary.Lifetime
+//@ ensures result == bldr
+
+// govc:trusted (*BundleBuilder).CreationTimestampNow
+//@ assigns bldr.err, bldr.primary.CreationTimestamp
+//@ ensures result == bldr
+
+// govc:trusted (*BundleBuilder).Canonical
+//@ assigns bldr.err, bldr.canonicals, bldr.canonicalCounter
+//@ ensures result == bldr
